@@ -162,6 +162,11 @@ class Spec:
         for s in live:
             acts.append("l:rst:%d" % s)
             acts.append("rx:R:%d" % s)
+        # RST_STREAM for an id the peer skipped (it never was a stream): ignored, and it stays an id that was never a stream
+        for i in (SERVER_PEER_IDS if not self.client else PROMISED):
+            if 0 < i <= TOP and m.status(i) == "unused_low":
+                acts.append("rx:Rlow:%d" % i)
+                break
         acts.append("cleanup")
         for i in PRIO_IDS:
             acts.append("prio:%d" % i)
@@ -190,6 +195,14 @@ class Spec:
                 bad("priority-not-just-event", "PRIORITY on id %d (%s) -> %s" % (sid, m.status(sid), o.brief()), status=m.status(sid))
             elif H.stream_flow_projection(h.conn) != p0:
                 bad("priority-changed-state", "PRIORITY on id %d (%s) changed stream/flow state" % (sid, m.status(sid)), status=m.status(sid))
+        elif parts[:2] == ["rx", "Rlow"]:
+            sid = int(parts[2])
+            o = h.rx([wire.rst_stream(sid, 8)])
+            if o.kind == "raise":
+                st.dead = True          # (treating it as a connection error is within RFC 7540 6.4 as well)
+                return Step("rlow-conn-error", viols, prune=True)
+            if o.events or o.frames:
+                bad("rst-on-skipped-id-had-effect", "RST_STREAM on the skipped id %d -> %s" % (sid, o.brief()))
         elif parts[0] == "finish":
             sid = int(parts[1])
             # end the stream normally in both directions
